@@ -185,12 +185,17 @@ theorem step_fs (env : Env) (a : Action) (fs : FS) (st : MState) (ans : List Str
   | replace =>
     rcases withOutput_cases env fs st ans _ with ⟨e, ev, _, h2⟩ | ⟨st1, o, ev, h1, h2⟩
     · left; simp only [step]; rw [h2]
-    · right
-      obtain ⟨hc, ho, _⟩ := getOutput_ok h1
-      have hs : step env .replace fs st ans = ⟨fs.update st1.cur (.file o false), st1, ans, ev ++ [.write st1.cur o], .done⟩ := by
-        simp only [step]; rw [h2]
-      rw [hs]
-      exact ⟨rfl, rfl, hc, o, ho, by simp [hc]⟩
+    · obtain ⟨hc, ho, _⟩ := getOutput_ok h1
+      by_cases hw : env.writable st1.cur = true
+      · right
+        have hs : step env .replace fs st ans = ⟨fs.update st1.cur (.file o false), st1, ans, ev ++ [.write st1.cur o], .done⟩ := by
+          simp only [step]; rw [h2]; simp [hw]
+        rw [hs]
+        exact ⟨rfl, rfl, hc, o, ho, by simp [hc]⟩
+      · left
+        have hs : step env .replace fs st ans = ⟨fs, st1, ans, ev ++ [.writeFailed st1.cur], .error .io⟩ := by
+          simp only [step]; rw [h2]; simp [hw]
+        rw [hs]
   | print | diff | exec =>
     left
     rcases withOutput_cases env fs st ans _ with ⟨e, ev, _, h2⟩ | ⟨st1, o, ev, _, h2⟩ <;>
@@ -245,13 +250,16 @@ theorem step_out_cases (env : Env) (a : Action) (fs : FS) (st : MState) (ans : L
     (ha : a = .print ∨ a = .diff ∨ a = .exec ∨ a = .replace) :
     (∃ e ev, getOutput env fs st = .error (e, ev) ∧ step env a fs st ans = ⟨fs, st, ans, ev, .error e⟩) ∨
     (∃ st1 o ev, getOutput env fs st = .ok (st1, o, ev) ∧
-      (step env a fs st ans).fs = (if a = .replace then fs.update st1.cur (.file o false) else fs) ∧
-      (step env a fs st ans).st = st1 ∧ (step env a fs st ans).ans = ans ∧ (step env a fs st ans).oc = .done) := by
+      (step env a fs st ans).fs =
+        (if a = .replace ∧ env.writable st1.cur = true then fs.update st1.cur (.file o false) else fs) ∧
+      (step env a fs st ans).st = st1 ∧ (step env a fs st ans).ans = ans ∧
+      (step env a fs st ans).oc = (if a = .replace ∧ env.writable st1.cur = false then .error .io else .done)) := by
   rcases ha with h | h | h | h <;> subst h <;>
     rcases withOutput_cases env fs st ans _ with ⟨e, ev, h1, h2⟩ | ⟨st1, o, ev, h1, h2⟩
   all_goals first
     | (left; exact ⟨e, ev, h1, by simp only [step]; rw [h2]⟩)
-    | (right; refine ⟨st1, o, ev, h1, ?_⟩; simp only [step]; rw [h2]; simp)
+    | (right; refine ⟨st1, o, ev, h1, ?_⟩; simp only [step]; rw [h2]
+       by_cases hw : env.writable st1.cur = true <;> simp [hw])
 
 /-- Shape of `step` for IFCHANGED. -/
 theorem step_ifchanged_cases (env : Env) (fs : FS) (st : MState) (ans : List Str) :
@@ -480,7 +488,7 @@ theorem step_sysexit {env : Env} {a : Action} {fs : FS} {st : MState} {ans : Lis
   rcases action_cases a with ha | ha | ha | ha
   · rcases step_out_cases env a fs st ans ha with ⟨e, ev, _, h2⟩ | ⟨st1, o, ev, _, _, _, _, h3⟩
     · rw [h2] at h; simp at h
-    · rw [h3] at h; simp at h
+    · rw [h3] at h; split at h <;> simp at h
   · subst ha
     rcases step_ifchanged_cases env fs st ans with ⟨e, ev, _, h2⟩ | ⟨st1, o, ev, h1, hrest⟩
     · rw [h2] at h; simp at h
@@ -741,6 +749,33 @@ theorem runActions_nodes (env : Env) :
       · exact Or.inr h
     · rw [runActions_cons_notdone hd]; exact h1
 
+/-- A path where `atomic_write_file` fails is never changed by an action. -/
+theorem step_unwritable (env : Env) (a : Action) (fs : FS) (st : MState) (ans : List Str) {q : Path}
+    (hq : env.writable q = false) : (step env a fs st ans).fs q = fs q := by
+  rcases step_fs env a fs st ans with h | ⟨ha, _, _, _, _, _⟩
+  · rw [h]
+  · subst ha
+    rcases step_out_cases env .replace fs st ans (by simp) with ⟨e, ev, _, h2⟩ | ⟨st1, o, ev, _, hfs, _, _, _⟩
+    · rw [h2]
+    · rw [hfs]
+      split
+      · rename_i hc
+        have : q ≠ st1.cur := by
+          intro h; rw [h, hc.2] at hq; simp at hq
+        exact FS.update_other fs _ this
+      · rfl
+
+theorem runActions_unwritable (env : Env) {q : Path} (hq : env.writable q = false) :
+    ∀ (acts : List Action) (fs : FS) (st : MState) (ans : List Str), (runActions env acts fs st ans).fs q = fs q
+  | [], fs, st, ans => by simp
+  | a :: rest, fs, st, ans => by
+    have h1 := step_unwritable env a fs st ans hq
+    by_cases hd : (step env a fs st ans).oc = .done
+    · rw [runActions_cons_done hd]
+      simp only
+      rw [runActions_unwritable env hq rest, h1]
+    · rw [runActions_cons_notdone hd]; exact h1
+
 /-! ### Laziness: the rewriter runs at most once per file -/
 
 def Event.isRewrite : Event → Bool
@@ -808,7 +843,11 @@ theorem step_out_ev (env : Env) (a : Action) (fs : FS) (st : MState) (ans : List
     (ha : a = .print ∨ a = .diff ∨ a = .exec ∨ a = .replace) {st1 : MState} {o : Content} {ev : List Event}
     (h1 : getOutput env fs st = .ok (st1, o, ev)) :
     ∃ x, Event.isRewrite x = false ∧ (step env a fs st ans).ev = ev ++ [x] := by
-  rcases ha with h | h | h | h <;> subst h <;> simp only [step, withOutput, h1] <;> exact ⟨_, rfl, rfl⟩
+  rcases ha with h | h | h | h <;> subst h <;> simp only [step, withOutput, h1]
+  · exact ⟨_, rfl, rfl⟩
+  · exact ⟨_, rfl, rfl⟩
+  · exact ⟨_, rfl, rfl⟩
+  · split <;> exact ⟨_, rfl, rfl⟩
 
 theorem step_simple_ev (env : Env) (a : Action) (fs : FS) (st : MState) (ans : List Str)
     (ha : a = .exit1 ∨ (∃ n, a = .query n) ∨ a = .symlink .error ∨ a = .symlink .skip ∨ a = .symlink .replace) :
@@ -832,7 +871,7 @@ theorem step_rewrites (env : Env) (a : Action) (fs : FS) (st : MState) (ans : Li
     · obtain ⟨h3, h4⟩ := getOutput_ev_ok h1
       obtain ⟨x, hx, hev⟩ := step_out_ev env a fs st ans ha h1
       rw [hev, hoc, hst, rewrites_append, h3, h4]
-      simp [rewrites, hx]
+      split <;> simp [rewrites, hx]
   · subst ha
     rcases step_ifchanged_cases env fs st ans with ⟨e, ev, h1, h2⟩ | ⟨st1, o, ev, h1, hrest⟩
     · rw [h2]; simpa using getOutput_ev_err h1
